@@ -933,4 +933,272 @@ Section PassReplay.
       intros Hne. apply Forall_app. split; [|exact Hnt]. apply noop_lev_sev, Hn.
       intros ->. cbn in H. injection H as _ _ <-. now apply Hne.
   Qed.
+  (** ** the reconciler loop of an ObjectSet whose revision is assigned *)
+  Lemma revision_pass_assigned sw mem : os_revision mem <> 0%Z -> revision_pass sw mem = (sw, [], mem, RevGo).
+  Proof. intros H. unfold revision_pass. apply Z.eqb_neq in H. now rewrite H. Qed.
+
+  Lemma active_body_fixpoint sw evs0 mem sw1 evs1 r1 :
+    find_set (sw_sets sw) (oi_kind (os_id mem)) (oi_ns (os_id mem)) (oi_name (os_id mem)) = Some mem ->
+    os_revision mem <> 0%Z -> lifecycle_eqb (os_life mem) LPaused = false ->
+    members_wf sw mem -> remotes_ready sw mem ->
+    active_body force sw evs0 mem = (sw1, evs1, r1) ->
+    exists st', find_set (sw_sets sw1) (oi_kind (os_id mem)) (oi_ns (os_id mem)) (oi_name (os_id mem)) = Some st' /\
+      spec_eq st' mem /\ find_cond (os_conds st') CArchived = find_cond (os_conds mem) CArchived /\
+      os_revision st' <> 0%Z /\
+      exists evs2, active_body force sw1 [] st' = (sw1, evs2, r1) /\ Forall (quiet_sev st') evs2 /\
+                   (r1 <> SError -> Forall (noop_sev st') evs2).
+  Proof.
+    intros Hf Hrev Hpa Hwf Hrr. rewrite (active_body_go sw evs0 mem sw [] mem (revision_pass_assigned sw mem Hrev)).
+    destruct (body_go sw mem) as [[swx evsx] rx] eqn:Eb. intros H. injection H as <- <- <-.
+    destruct (body_go_replay sw mem mem swx evsx rx Hf (same_but_rev_refl mem) Hpa Hwf Hrr Eb)
+      as (st' & Hf' & Hsp' & Har & Hor & Hagain).
+    assert (Hrev' : os_revision st' <> 0%Z) by (destruct Hor as [-> | ->]; exact Hrev).
+    assert (Hrev2 : os_revision st' = os_revision mem) by (destruct Hor as [-> | ->]; reflexivity).
+    exists st'. split; [exact Hf'|]. split; [exact Hsp'|]. split; [exact Har|]. split; [exact Hrev'|].
+    destruct (Hagain st' (same_but_rev_refl st') Hrev2) as (evs2 & Hrun & Hq & Hn).
+    exists evs2. rewrite (active_body_go swx [] st' swx [] st' (revision_pass_assigned swx st' Hrev')), Hrun.
+    split; [reflexivity|]. split; assumption.
+  Qed.
+
+  (** ** revision assignment (revisionReconciler), replayed *)
+
+  (** the stored sets after a status update, as seen by a reader of any key: unchanged, or the updated set *)
+  Lemma update_status_sets sw m st sw' m' ok :
+    find_set (sw_sets sw) (oi_kind (os_id m)) (oi_ns (os_id m)) (oi_name (os_id m)) = Some st ->
+    os_rv st = os_rv m -> spec_eq m st ->
+    update_status sw m = (sw', m', ok) ->
+    forall st', find_set (sw_sets sw') (oi_kind (os_id m)) (oi_ns (os_id m)) (oi_name (os_id m)) = Some st' ->
+      same_but_rev m' st' /\
+      forall kind ns name,
+        find_set (sw_sets sw') kind ns name = find_set (sw_sets sw) kind ns name \/
+        (find_set (sw_sets sw') kind ns name = Some st' /\ find_set (sw_sets sw) kind ns name = Some st).
+  Proof.
+    intros Hf Hrv Hsp. pose proof Hsp as (Hid & _). unfold update_status. rewrite Hf, Hrv, N.eqb_refl. cbn [negb].
+    destruct (status_eqb st m) eqn:Es.
+    - intros H st' Hf'. injection H as <- <- _. rewrite Hf in Hf'. injection Hf' as <-.
+      apply status_eqb_spec in Es. destruct Es as (E1 & E2 & E3 & E4).
+      split; [|intros; now left]. split; [exact Hsp|]. auto.
+    - intros H st' Hf'. injection H as <- <- _. cbn [sw_sets] in Hf' |- *.
+      set (s' := with_status st m (w_rv (sw_w sw))) in *.
+      assert (Hid' : os_id s' = os_id st) by reflexivity.
+      assert (Hfs : find_set (sw_sets sw) (oi_kind (os_id s')) (oi_ns (os_id s')) (oi_name (os_id s')) = Some st) by (rewrite Hid', <- Hid; exact Hf).
+      rewrite Hid, <- Hid' in Hf'. rewrite (find_put_set _ s' st Hfs) in Hf'. injection Hf' as <-.
+      split; [apply same_but_rev_refl|].
+      intros kind ns name. destruct (set_key s' kind ns name) eqn:E.
+      + right. destruct (set_key_true _ _ _ _ E) as (-> & -> & ->). split; [now apply (find_put_set _ s' st)|exact Hfs].
+      + left. now apply find_put_set_other.
+  Qed.
+
+  Lemma scan_prev_ext sets sets' s s' names :
+    os_id s' = os_id s ->
+    (forall name, option_map os_revision (find_set sets' (oi_kind (os_id s)) (oi_ns (os_id s)) name) =
+                  option_map os_revision (find_set sets (oi_kind (os_id s)) (oi_ns (os_id s)) name)) ->
+    forall latest, scan_prev sets' s' names latest = scan_prev sets s names latest.
+  Proof.
+    intros Hid Hrev. induction names as [|x xs IH]; intros latest; cbn; [reflexivity|]. rewrite Hid.
+    specialize (Hrev x).
+    destruct (find_set sets' _ _ x) as [p'|], (find_set sets _ _ x) as [p|]; cbn in Hrev; try discriminate; [|reflexivity].
+    injection Hrev as ->. destruct (Z.eqb (os_revision p) 0); [reflexivity|apply IH].
+  Qed.
+
+  Lemma scan_prev_ge sets s names : forall latest x, scan_prev sets s names latest = Some (Some x) -> (latest <= x)%Z.
+  Proof.
+    induction names as [|n ns IH]; intros latest x; cbn.
+    - intros H. injection H as <-. lia.
+    - destruct (find_set sets _ _ n) as [p|]; [|discriminate]. destruct (Z.eqb (os_revision p) 0); [discriminate|].
+      intros H. apply IH in H. lia.
+  Qed.
+
+  Lemma set_conds_self m : set_conds m (os_conds m) = m.
+  Proof. destruct m; reflexivity. Qed.
+
+  Lemma members_wf_ext sw sw' m m' :
+    w_store (sw_w sw') = w_store (sw_w sw) -> os_id m' = os_id m -> os_phases m' = os_phases m ->
+    members_wf sw m -> members_wf sw' m'.
+  Proof.
+    intros Hst Hid Hph H ph p cu Hin Hc Hp Hl. rewrite Hid. rewrite Hph in Hin. apply (H ph p cu Hin Hc Hp).
+    rewrite <- Hst, <- Hl. unfold key_of, desired_key, as_owner. cbn. now rewrite Hid.
+  Qed.
+
+  Lemma remotes_ready_ext sw sw' m m' :
+    sw_phases sw' = sw_phases sw -> os_id m' = os_id m -> os_phases m' = os_phases m -> os_life m' = os_life m ->
+    os_remotes m' = os_remotes m ->
+    remotes_ready sw m -> remotes_ready sw' m'.
+  Proof.
+    intros Hps Hid Hph Hl Hrm H ph Hin Hc. rewrite Hph in Hin. destruct (H ph Hin Hc) as (cur & Hf & Hct & Hp & Ha).
+    exists cur. unfold desired_phase, phase_kind in *. cbn in *. rewrite Hps, Hid, Hl, Hrm. auto.
+  Qed.
+
+  (** ** the reconciler loop of the controller (revision, phases, status), replayed: for ANY revision state *)
+  Theorem active_body_replay sw evs0 mem sw1 evs1 r1 :
+    find_set (sw_sets sw) (oi_kind (os_id mem)) (oi_ns (os_id mem)) (oi_name (os_id mem)) = Some mem ->
+    lifecycle_eqb (os_life mem) LPaused = false ->
+    members_wf sw mem -> remotes_ready sw mem ->
+    active_body force sw evs0 mem = (sw1, evs1, r1) ->
+    exists st', find_set (sw_sets sw1) (oi_kind (os_id mem)) (oi_ns (os_id mem)) (oi_name (os_id mem)) = Some st' /\
+      spec_eq st' mem /\ find_cond (os_conds st') CArchived = find_cond (os_conds mem) CArchived /\
+      exists evs2, active_body force sw1 [] st' = (sw1, evs2, r1) /\ Forall (quiet_sev st') evs2 /\
+                   (r1 <> SError -> Forall (noop_sev st') evs2).
+  Proof.
+    intros Hf Hpa Hwf Hrr.
+    destruct (Z.eqb (os_revision mem) 0) eqn:Ez.
+    2:{ apply Z.eqb_neq in Ez. intros H.
+        destruct (active_body_fixpoint sw evs0 mem sw1 evs1 r1 Hf Ez Hpa Hwf Hrr H) as (st' & H1 & H2 & H3 & _ & H4).
+        exists st'. auto. }
+    destruct (os_prev mem) as [|pn pns] eqn:Epv.
+    - (* no previous revision: revision 1 is assigned in memory and persisted with the status *)
+      assert (Hrp : revision_pass sw mem = (sw, [], set_revision mem 1, RevGo)) by (unfold revision_pass; now rewrite Ez, Epv).
+      rewrite (active_body_go sw evs0 mem sw [] _ Hrp).
+      destruct (body_go sw (set_revision mem 1)) as [[swx evsx] rx] eqn:Eb. intros H. injection H as <- <- <-.
+      assert (Hsb : same_but_rev (set_revision mem 1) mem) by (repeat split).
+      destruct (body_go_replay sw (set_revision mem 1) mem swx evsx rx Hf Hsb Hpa Hwf Hrr Eb)
+        as (st' & Hf' & Hsp' & Har & Hor & Hagain).
+      exists st'. split; [exact Hf'|]. split; [exact Hsp'|]. split; [exact Har|].
+      destruct (Z.eqb (os_revision st') 0) eqn:Ez'.
+      + assert (Hpv' : os_prev st' = []) by (destruct Hsp' as (_&_&_&_&_&_&_&_&->); exact Epv).
+        assert (Hrp' : revision_pass swx st' = (swx, [], set_revision st' 1, RevGo)) by (unfold revision_pass; now rewrite Ez', Hpv').
+        destruct (Hagain (set_revision st' 1)) as (evs2 & Hrun & Hq & Hn); [repeat split|reflexivity|].
+        exists evs2. rewrite (active_body_go swx [] st' swx [] _ Hrp'), Hrun. auto.
+      + apply Z.eqb_neq in Ez'.
+        assert (Hrev2 : os_revision st' = os_revision (set_revision mem 1)).
+        { destruct Hor as [-> | ->]; [|reflexivity]. apply Z.eqb_eq in Ez. contradiction. }
+        destruct (Hagain st' (same_but_rev_refl st') Hrev2) as (evs2 & Hrun & Hq & Hn).
+        exists evs2. rewrite (active_body_go swx [] st' swx [] st' (revision_pass_assigned swx st' Ez')), Hrun. auto.
+    - destruct (scan_prev (sw_sets sw) mem (os_prev mem) 0) as [[latest|]|] eqn:Esc.
+      + (* the revision is computed from the previous revisions and persisted at once *)
+        destruct (update_status sw (set_revision mem (latest + 1))) as [[swa mema] oka] eqn:Eu.
+        assert (Hspm : spec_eq (set_revision mem (latest + 1)) mem) by (repeat split).
+        destruct (update_status_post sw (set_revision mem (latest + 1)) mem swa mema oka Hf eq_refl eq_refl Eu)
+          as (-> & Hsta & Hpha & Hnsa & sta & Hfa & Hspa & Hstata & _).
+        destruct (update_status_sets sw (set_revision mem (latest + 1)) mem swa mema true Hf eq_refl Hspm Eu sta Hfa) as (Hsba & _).
+        assert (Hrp : revision_pass sw mem = (swa, [status_ev (set_revision mem (latest + 1)) true], mema, RevGo)).
+        { unfold revision_pass. rewrite Ez, Epv. rewrite <- Epv, Esc, Eu. reflexivity. }
+        rewrite (active_body_go sw evs0 mem swa _ mema Hrp).
+        destruct (body_go swa mema) as [[swx evsx] rx] eqn:Eb. intros H. injection H as <- <- <-.
+        pose proof Hsba as (Hspma & _ & _ & _ & Hrma).
+        assert (Hida : os_id mema = os_id mem).
+        { destruct Hspma as (->&_), Hspa as (->&_). reflexivity. }
+        assert (Hspmm : spec_eq mema mem) by (eapply spec_eq_trans; eauto).
+        assert (Hrma' : os_remotes mema = os_remotes mem) by (rewrite Hrma; now destruct Hstata as (_&_&_&->)).
+        assert (Hfa' : find_set (sw_sets swa) (oi_kind (os_id mema)) (oi_ns (os_id mema)) (oi_name (os_id mema)) = Some sta) by now rewrite Hida.
+        assert (Hpa' : lifecycle_eqb (os_life mema) LPaused = false) by (destruct Hspmm as (_&_&_&_&_&_&->&_); exact Hpa).
+        assert (Hwf' : members_wf swa mema).
+        { apply (members_wf_ext sw swa mem mema Hsta Hida); [now destruct Hspmm as (_&_&_&_&_&_&_&->&_)|exact Hwf]. }
+        assert (Hrr' : remotes_ready swa mema).
+        { apply (remotes_ready_ext sw swa mem mema Hpha Hida); try assumption;
+            [now destruct Hspmm as (_&_&_&_&_&_&_&->&_)|now destruct Hspmm as (_&_&_&_&_&_&->&_)]. }
+        destruct (body_go_replay swa mema sta swx evsx rx Hfa' Hsba Hpa' Hwf' Hrr' Eb)
+          as (st' & Hf' & Hsp' & Har & Hor & Hagain).
+        rewrite Hida in Hf'.
+        exists st'. split; [exact Hf'|]. split; [eapply spec_eq_trans; eauto|].
+        split. { rewrite Har. destruct Hstata as (_ & -> & _). reflexivity. }
+        assert (Hreva : os_revision mema = (latest + 1)%Z).
+        { (* the in-memory copy carries the stored revision *)
+          unfold update_status in Eu. cbn [os_id set_revision os_rv] in Eu. rewrite Hf, N.eqb_refl in Eu. cbn [negb] in Eu.
+          destruct (status_eqb mem (set_revision mem (latest + 1))); injection Eu as _ <-; reflexivity. }
+        assert (Hsta_rev : os_revision sta = (latest + 1)%Z) by now destruct Hstata as (-> & _).
+        pose proof (scan_prev_ge _ _ _ _ _ Esc) as Hge.
+        assert (Hrev' : os_revision st' <> 0%Z) by (destruct Hor as [-> | ->]; lia).
+        assert (Hrev2 : os_revision st' = os_revision mema) by (destruct Hor as [-> | ->]; lia).
+        destruct (Hagain st' (same_but_rev_refl st') Hrev2) as (evs2 & Hrun & Hq & Hn).
+        exists evs2. rewrite (active_body_go swx [] st' swx [] st' (revision_pass_assigned swx st' Hrev')), Hrun. auto.
+      + (* a previous revision has no revision number yet: requeue; only the Paused condition is reported *)
+        assert (Hrp : revision_pass sw mem = (sw, [], mem, RevRequeue)).
+        { unfold revision_pass. rewrite Ez, Epv. rewrite <- Epv, Esc. reflexivity. }
+        unfold active_body. rewrite Hrp.
+        set (mem2 := set_conds mem (paused_cond (sw_phases sw) mem)).
+        destruct (update_status sw mem2) as [[sw2 mx] ok] eqn:Eu. intros H. injection H as <- <- <-.
+        assert (Hspm : spec_eq mem2 mem) by (repeat split).
+        destruct (update_status_post sw mem2 mem sw2 mx ok Hf eq_refl eq_refl Eu)
+          as (-> & Hst2 & Hph2 & Hns2 & st' & Hf' & Hsp' & Hstat & _).
+        destruct (update_status_sets sw mem2 mem sw2 mx true Hf eq_refl Hspm Eu st' Hf') as (_ & Hsets).
+        destruct Hstat as (Hs1 & Hs2 & Hs3 & Hs4). cbn [mem2 os_revision os_conds os_ctrlof os_remotes set_conds] in Hs1, Hs2, Hs3, Hs4.
+        exists st'. split; [exact Hf'|]. split; [exact Hsp'|].
+        split. { rewrite Hs2. apply paused_cond_other. discriminate. }
+        pose proof Hsp' as (Hi' & Hg' & _ & _ & _ & _ & Hl' & _ & Hpv').
+        assert (Hrp' : revision_pass sw2 st' = (sw2, [], st', RevRequeue)).
+        { unfold revision_pass. rewrite Hs1, Ez, Hpv', Epv. rewrite <- Epv.
+          rewrite (scan_prev_ext (sw_sets sw) (sw_sets sw2) mem st' (os_prev mem) Hi'); [now rewrite Esc|].
+          intros name. destruct (Hsets (oi_kind (os_id mem)) (oi_ns (os_id mem)) name) as [->|[-> ->]]; [reflexivity|]. cbn. now rewrite Hs1. }
+        unfold active_body. rewrite Hrp', Hph2.
+        assert (Hpc : paused_cond (sw_phases sw) st' = os_conds st').
+        { apply (paused_cond_fix (sw_phases sw) mem st'); try assumption. now rewrite Hs2. }
+        rewrite Hpc, set_conds_self.
+        assert (Hf'' : find_set (sw_sets sw2) (oi_kind (os_id st')) (oi_ns (os_id st')) (oi_name (os_id st')) = Some st') by now rewrite Hi'.
+        rewrite (update_status_noop sw2 st' st' Hf'' eq_refl (stat_eq_refl st')).
+        eexists. split; [reflexivity|].
+        destruct (paused_reads_quiet st' (sw_phases sw) st') as [Hp1 Hp2].
+        split; [|intros _]; cbn [app]; (apply Forall_app; split; [assumption|constructor; [cbn; auto|constructor]]).
+      + (* a previous revision is missing: error before any write *)
+        assert (Hrp : revision_pass sw mem = (sw, [], mem, RevErr)).
+        { unfold revision_pass. rewrite Ez, Epv. rewrite <- Epv, Esc. reflexivity. }
+        unfold active_body. rewrite Hrp. intros H. injection H as <- <- <-.
+        exists mem. split; [exact Hf|]. split; [apply spec_eq_refl|]. split; [reflexivity|].
+        rewrite Hrp. eexists. split; [reflexivity|]. split; [constructor|intros _; constructor].
+  Qed.
+
+  (** ** GenericObjectSetController.Reconcile is a fixpoint of itself.
+      For an active (not deleting, not archived), unpaused ObjectSet (with or without finalizer, with or without an
+      assigned revision), over members whose
+      stored owner lists are well-formed (and delegated phases whose phase objects need no write): whatever one pass
+      did - completed, stopped at a failing probe, was refused an adoption, met a duplicate, had to wait for a previous revision - the NEXT pass from
+      the world it left returns the same result and leaves that world exactly as it is (member store, both counters,
+      every stored ObjectSet, phase objects, namespaces); every request it sends is a no-op apply (or an apply the
+      server rejects again), a read of a phase object, or a status update equal to the stored status, which the
+      server does not persist. *)
+  Theorem pass_fixpoint sw k ns n mem0 sw1 evs1 r1 :
+    find_set (sw_sets sw) k ns n = Some mem0 -> is_active mem0 ->
+    os_life mem0 <> LPaused ->
+    members_wf sw mem0 -> remotes_ready sw mem0 ->
+    objectset_pass force sw k ns n = (sw1, evs1, r1) ->
+    exists st' evs2, find_set (sw_sets sw1) k ns n = Some st' /\
+      objectset_pass force sw1 k ns n = (sw1, evs2, r1) /\
+      Forall (quiet_sev st') evs2 /\ (r1 <> SError -> Forall (noop_sev st') evs2).
+  Proof.
+    intros Hfind (Harch & Hdel & Hlife) Hnp Hwf Hrr.
+    destruct (find_set_id _ _ _ _ _ Hfind) as (Hk & Hns & Hn).
+    assert (Hpa : lifecycle_eqb (os_life mem0) LPaused = false) by (destruct (os_life mem0); try reflexivity; congruence).
+    assert (Hla : lifecycle_eqb (os_life mem0) LArchived = false) by (destruct (os_life mem0); try reflexivity; congruence).
+    (* the second pass, given what the first left behind *)
+    assert (Hsecond : forall mem st', os_id mem = os_id mem0 -> os_deleting mem = false -> os_life mem = os_life mem0 -> os_fin mem = true ->
+              cond_true (os_conds mem) CArchived = false ->
+              find_set (sw_sets sw1) (oi_kind (os_id mem)) (oi_ns (os_id mem)) (oi_name (os_id mem)) = Some st' ->
+              spec_eq st' mem -> find_cond (os_conds st') CArchived = find_cond (os_conds mem) CArchived ->
+              (exists evs2, active_body force sw1 [] st' = (sw1, evs2, r1) /\ Forall (quiet_sev st') evs2 /\
+                            (r1 <> SError -> Forall (noop_sev st') evs2)) ->
+              exists st' evs2, find_set (sw_sets sw1) k ns n = Some st' /\
+                objectset_pass force sw1 k ns n = (sw1, evs2, r1) /\
+                Forall (quiet_sev st') evs2 /\ (r1 <> SError -> Forall (noop_sev st') evs2)).
+    { intros mem st' Hid Hdl Hlf Hfin Hca Hf' (Hi'&_&Hd'&Hfi'&_&_&Hl'&_) Har (evs2 & Hrun & Hq & Hnn).
+      rewrite Hid, Hk, Hns, Hn in Hf'. exists st', evs2. split; [exact Hf'|]. split; [|split; assumption].
+      unfold objectset_pass. rewrite Hf'. unfold cond_true in Hca |- *. rewrite Har, Hca.
+      rewrite Hd', Hdl, Hl', Hlf, Hla. cbn [orb]. unfold active_pass. rewrite Hfi', Hfin. exact Hrun. }
+    unfold objectset_pass. rewrite Hfind, Harch, Hdel, Hla. cbn [orb]. unfold active_pass.
+    assert (Hf0 : find_set (sw_sets sw) (oi_kind (os_id mem0)) (oi_ns (os_id mem0)) (oi_name (os_id mem0)) = Some mem0) by now rewrite Hk, Hns, Hn.
+    destruct (os_fin mem0) eqn:Efin.
+    - intros H.
+      destruct (active_body_replay sw [] mem0 sw1 evs1 r1 Hf0 Hpa Hwf Hrr H) as (st' & Hf' & Hsp' & Har & Hrun).
+      exact (Hsecond mem0 st' eq_refl Hdel eq_refl Efin Harch Hf' Hsp' Har Hrun).
+    - unfold patch_finalizer. rewrite Hf0, N.eqb_refl. cbn [negb andb].
+      set (m := set_fin mem0 true (w_rv (sw_w sw))).
+      set (sw0 := {| sw_w := bump_rv (sw_w sw); sw_sets := put_set (sw_sets sw) m; sw_phases := sw_phases sw; sw_nss := sw_nss sw |}).
+      intros H.
+      assert (Hfm : find_set (sw_sets sw0) (oi_kind (os_id m)) (oi_ns (os_id m)) (oi_name (os_id m)) = Some m).
+      { apply (find_put_set (sw_sets sw) m mem0). exact Hf0. }
+      destruct (active_body_replay sw0 _ m sw1 evs1 r1 Hfm Hpa Hwf Hrr H) as (st' & Hf' & Hsp' & Har & Hrun).
+      exact (Hsecond m st' eq_refl Hdel eq_refl eq_refl Harch Hf' Hsp' Har Hrun).
+  Qed.
+
+  (** Quiescence: a pass that ran to its end without error (in particular one that reported Available=True for
+      every phase) is followed by passes that write nothing at all: world unchanged, all member requests no-op applies. *)
+  Corollary quiescent_pass sw k ns n mem0 sw1 evs1 requeue :
+    find_set (sw_sets sw) k ns n = Some mem0 -> is_active mem0 -> os_life mem0 <> LPaused ->
+    members_wf sw mem0 -> remotes_ready sw mem0 ->
+    objectset_pass force sw k ns n = (sw1, evs1, SDone requeue) ->
+    exists st' evs2, find_set (sw_sets sw1) k ns n = Some st' /\
+      objectset_pass force sw1 k ns n = (sw1, evs2, SDone requeue) /\ Forall (noop_sev st') evs2.
+  Proof.
+    intros H1 H2 H3 H4 H5 H6. destruct (pass_fixpoint sw k ns n mem0 sw1 evs1 _ H1 H2 H3 H4 H5 H6) as (st' & evs2 & Ha & Hb & _ & Hc).
+    exists st', evs2. split; [exact Ha|]. split; [exact Hb|]. apply Hc. discriminate.
+  Qed.
 End PassReplay.
